@@ -25,9 +25,12 @@ COLSPECS_FULL = [
     "a:int,b:text",
     ["a", "b"],
     {"T": "INT"},
+    # the same columns and types in two orders: re-registering a table in another column order is an update (star expansion follows it)
+    {"a": "INT", "b": "TEXT"},
+    {"b": "TEXT", "a": "INT"},
 ]
 # the last spec names a column like a table ("T"): table-name and column-name normalisation share caches
-COLSPECS_QUICK = [None, {"a": "INT"}, {"b": "TEXT"}]
+COLSPECS_QUICK = [None, {"a": "INT"}, {"b": "TEXT"}, {"a": "INT", "b": "TEXT"}, {"b": "TEXT", "a": "INT"}]
 
 KINDS_FULL = ["names", "type_a", "type_b", "has_a", "has_b", "has_T", "find_TF", "find_TT", "find_FF", "find_FT", "names_tbl"]
 KINDS_QUICK = ["names", "type_a", "find_FT"]
@@ -164,6 +167,9 @@ def run_history(cfg, hist, colspecs):
     return s, obs
 
 
+REF3 = [None]
+
+
 def judge(cfg, hist, colspecs, memo):
     """hist ends with a lookup. Returns (real_obs, ref1_obs, ref2_obs, real_schema)."""
     real, obs = run_history(cfg, hist, colspecs)
@@ -173,8 +179,14 @@ def judge(cfg, hist, colspecs, memo):
         r1, o1 = run_history(cfg, adds + (hist[-1],), colspecs)
         r2 = ref_from_mapping(real, cfg)
         o2 = apply(r2, hist[-1], colspecs, cfg[0])
-        memo[key] = (o1, o2)
-    o1, o2 = memo[key]
+        # ref3: only the LAST registration of every table spelled the same way (an earlier registration of the same spelling that a
+        # later one with columns overrides is left out) - independent of how add_table treats a table it already knows
+        last_only = tuple(op for i, op in enumerate(adds)
+                          if not any(l[0] == op[0] and l[1] == op[1] and colspecs[l[2]] is not None for l in adds[i + 1:]))
+        o3 = o1 if last_only == adds else run_history(cfg, last_only + (hist[-1],), colspecs)[1]
+        memo[key] = (o1, o2, o3)
+    o1, o2, o3 = memo[key]
+    REF3[0] = o3
     return obs, o1, o2, real
 
 
@@ -260,7 +272,7 @@ def explore(cfg, first_ops, ops, colspecs, max_len):
                     for i, op in enumerate(hist[:-1]):
                         if is_add(op) and any(p[0] == "look" for p in hist[:i]):
                             before = tuple(p for p in hist[:i] if is_add(p))
-                            kb = (before, last)
+                            kb = ("before", before, last)
                             if kb not in memo:
                                 _, ob = run_history(cfg, before + (last,), colspecs)
                                 memo[kb] = (ob, None)
@@ -275,6 +287,14 @@ def explore(cfg, first_ops, ops, colspecs, max_len):
                         {"signature": sig, "what": what,
                          "case": {"cfg": cfg_json(cfg), "history": [list(op) for op in hist if op[0] in ("add", "add_nf") or op is last],
                                   "colspecs": colspecs, "add_only": show(o1), "from_mapping": show(o2), "kind": "construct"}})
+                elif REF3[0] != o1:
+                    what = (f"after {describe(hist)} the lookup answers {show(o1)}; a schema that only received the last registration of "
+                            f"each table answers {show(REF3[0])}")
+                    sig = f"C18|reregistration|{shape(hist, only_adds=True)}|{kind_of(o1)}->{kind_of(REF3[0])}"
+                    stats["violations"].append(
+                        {"signature": sig, "what": what,
+                         "case": {"cfg": cfg_json(cfg), "history": [list(op) for op in hist if op[0] in ("add", "add_nf") or op is last],
+                                  "colspecs": colspecs, "actual": show(o1), "expected": show(REF3[0]), "kind": "reregistration"}})
                 elif obs != o1:
                     what = (f"after {describe(hist)} the lookup answers {show(obs)}; a fresh schema with the same "
                             f"registrations answers {show(o1)}")
@@ -443,6 +463,9 @@ def replay(ctx: Ctx, case: dict) -> bool:
     print("actual  :", show(obs))
     print("ref add-only :", show(o1))
     print("ref from-mapping:", show(o2))
+    print("ref last-registration-only:", show(REF3[0]))
     if case.get("kind") == "construct":
         return o1 != o2
+    if case.get("kind") == "reregistration":
+        return REF3[0] != o1
     return obs != o1
